@@ -347,6 +347,29 @@ func hashForServerKeyExchange(sigType uint8, hashFunc crypto.Hash, version uint1
 	return md5SHA1Hash(slices)
 }
 
+// tlsHashID returns the TLS HashAlgorithm code point (RFC 5246, Section
+// 7.4.1.4.1; RFC 8422, Section 5.1.3 for intrinsic) of the hash named by a
+// signature scheme. crypto.Hash values are not TLS code points.
+func tlsHashID(h crypto.Hash) uint8 {
+	switch h {
+	case crypto.MD5:
+		return hashMD5
+	case crypto.SHA1:
+		return hashSHA1
+	case crypto.SHA224:
+		return hashSHA224
+	case crypto.SHA256:
+		return hashSHA256
+	case crypto.SHA384:
+		return hashSHA384
+	case crypto.SHA512:
+		return hashSHA512
+	case directSigning:
+		return hashIntrinsic
+	}
+	return hashNone
+}
+
 // pickTLS12HashForSignature returns a TLS 1.2 hash identifier for signing a
 // ServerKeyExchange given the signature type being used and the client's
 // advertised list of supported signature and hash combinations.
@@ -610,7 +633,7 @@ func (ka *ecdheKeyAgreement) processServerKeyExchange(config *Config, clientHell
 		auth.raw = sig
 		auth.valid = ka.verifyError == nil
 		auth.sh.Signature = sigType
-		auth.sh.Hash = uint8(sigHash)
+		auth.sh.Hash = tlsHashID(sigHash)
 	default:
 		break
 	}
